@@ -19,6 +19,22 @@ import torrentfile.rebuild  # noqa: E402
 import torrentfile.recheck  # noqa: E402
 import torrentfile.torrent  # noqa: E402
 import torrentfile.utils  # noqa: E402
+import torrentfile.mixins  # noqa: E402
+import torrentfile.interactive  # noqa: E402
+
+# package attributes `recheck`, `edit`, `create`, `magnet`, `info` are the
+# command *functions*; take the modules from sys.modules
+M = {n: sys.modules["torrentfile." + n] for n in
+     ("cli", "commands", "edit", "hasher", "rebuild", "recheck", "torrent",
+      "utils", "mixins", "interactive")}
+hasher = M["hasher"]
+recheck = M["recheck"]
+utils = M["utils"]
+torrent = M["torrent"]
+rebuild = M["rebuild"]
+edit = M["edit"]
+commands = M["commands"]
+cli = M["cli"]
 
 if not os.path.realpath(torrentfile.__file__).startswith(
         os.path.realpath(REPO) + os.sep):
@@ -26,7 +42,7 @@ if not os.path.realpath(torrentfile.__file__).startswith(
                      f"not from {REPO}")
 
 REAL_B = 16384
-_orig_normalize = torrentfile.utils.normalize_piece_length
+_orig_normalize = utils.normalize_piece_length
 
 
 class _Null(io.TextIOBase):
@@ -44,23 +60,23 @@ NULL = _Null()
 
 
 def block_size():
-    return torrentfile.hasher.BLOCK_SIZE
+    return hasher.BLOCK_SIZE
 
 
 def set_scale(B):
     """Rebind the one block-size constant (and, off real scale, bypass the
     piece-length validator, which C12 checks on its own)."""
-    torrentfile.hasher.BLOCK_SIZE = B
-    torrentfile.recheck.BLOCK_SIZE = B
+    hasher.BLOCK_SIZE = B
+    recheck.BLOCK_SIZE = B
     if B == REAL_B:
-        torrentfile.utils.normalize_piece_length = _orig_normalize
+        utils.normalize_piece_length = _orig_normalize
     else:
-        torrentfile.utils.normalize_piece_length = lambda x: int(x)
+        utils.normalize_piece_length = lambda x: int(x)
 
 
 @contextlib.contextmanager
 def scale(B):
-    old = torrentfile.hasher.BLOCK_SIZE
+    old = hasher.BLOCK_SIZE
     set_scale(B)
     try:
         yield
@@ -97,7 +113,7 @@ def quiet():
 def reset_process_state():
     """Harness-side reset of the history-carrying state that C09 studies, so that
     other checks are not influenced by it (each case also uses a fresh path)."""
-    memo = torrentfile.utils.filelist_total
+    memo = utils.filelist_total
     if hasattr(memo, "cache"):
         memo.cache.clear()
 
@@ -106,16 +122,16 @@ def execute(argv):
     """Run the CLI entry point in-process, silently."""
     os.environ.setdefault("TORRENTFILE_DEBUG", "OFF")
     with quiet():
-        return torrentfile.cli.execute(list(argv))
+        return cli.execute(list(argv))
 
 
 CREATORS = {
-    "TorrentFile": lambda **kw: torrentfile.torrent.TorrentFile(**kw),
-    "TorrentFileV2": lambda **kw: torrentfile.torrent.TorrentFileV2(**kw),
-    "TorrentFileHybrid": lambda **kw: torrentfile.torrent.TorrentFileHybrid(**kw),
-    "Assembler2": lambda **kw: torrentfile.torrent.TorrentAssembler(
+    "TorrentFile": lambda **kw: torrent.TorrentFile(**kw),
+    "TorrentFileV2": lambda **kw: torrent.TorrentFileV2(**kw),
+    "TorrentFileHybrid": lambda **kw: torrent.TorrentFileHybrid(**kw),
+    "Assembler2": lambda **kw: torrent.TorrentAssembler(
         meta_version="2", **kw),
-    "Assembler3": lambda **kw: torrentfile.torrent.TorrentAssembler(
+    "Assembler3": lambda **kw: torrent.TorrentAssembler(
         meta_version="3", **kw),
 }
 
